@@ -404,16 +404,21 @@ func (m pathmap) str(prefix, indent, curindent string) string {
 }
 
 func (m pathmap) add(path []string, v interface{}) {
+	// Paths come from the server: an empty path names nothing, and a path
+	// running through an earlier leaf replaces that leaf by a branch.
+	if len(path) == 0 {
+		return
+	}
 	if len(path) == 1 {
 		m[path[0]] = v
 		return
 	}
 
-	mm, ok := m[path[0]]
+	mm, ok := m[path[0]].(pathmap)
 	if !ok {
 		mm = make(pathmap)
 	}
-	mm.(pathmap).add(path[1:], v)
+	mm.add(path[1:], v)
 	m[path[0]] = mm
 }
 
